@@ -1,7 +1,19 @@
 """C09 -- an interrupted search stops promptly and uses nothing computed afterwards.
-proof: Props/C09.v; tie + search for a failing input: checks/searchcore.py (engine vs extracted model on full hook traces; extracted monitors on the engine's answers)."""
-from checks import searchcore
+proof: Props/C09.v; tie + search for a failing input: checks/searchcore.py (engine vs extracted model on full hook traces; extracted monitors on the engine's answers),
+and, for the expired-deadline half of the property, sessions through the REAL main loop whose deadline has already passed when the search starts
+(`go movetime 0` and the clock states whose budget is 0 ms): the first poll must see it and the search must end without completing an iteration."""
+import json
+from checks import searchcore, c10
 def run(ctx):
     searchcore.run_property(ctx, 'Props/C09.v', ['C09:'],
         'after the stop was observed the search still wrote to the PV or the transposition table, or the node counter ran past the polling cadence')
-def replay(ctx, path): return searchcore.replay_search(ctx, path, 'Props/C09.v')
+    if ctx.engine is not None:
+        c10.budget_zero_sessions(ctx, 'C09:expired-deadline-not-seen', 'the deadline had already passed when the search started, yet no poll acted on it: the search went on and printed completed iterations')
+def replay(ctx, path):
+    j = json.load(open(path)); sc = j.get('replay', {}).get('script (delay_in_polls line)')
+    if sc:
+        ctx.build_engine(); s = []
+        for x in sc:
+            d, l = x.split(' ', 1); s.append((int(d), l))
+        print(ctx.engine_session(s, extra=7)); return 0
+    return searchcore.replay_search(ctx, path, 'Props/C09.v')
